@@ -21,7 +21,7 @@ class C18(BaseCheck):
   REQUIRED_CLASSES = ('counter', 'gauge', 'percentile:below-reservoir', 'percentile:above-reservoir',
                       'full-stack', 'percentile:busy-after-full', 'zero-increment', 'fractional-increment',
                       'overlapping-measure', 'gauge:persistent-objects', 'percentile:second-aggregation',
-                      'sibling-class-same-short-name', 'source-subclass', 'client-id:equal-not-identical', 'percentile:idle-siblings', 'percentile:aggregation-spans-clock-ticks')
+                      'sibling-class-same-short-name', 'source-subclass', 'client-id:equal-not-identical', 'percentile:idle-siblings', 'percentile:aggregation-spans-clock-ticks', 'objects-bound-before-reset')
   ASSUMPTIONS = ('percentile bounds allow 1e-9 relative slack for the linear interpolation',)
   QUICK_CASES = 720
   THOROUGH_CASES = 40000
@@ -52,13 +52,21 @@ class C18(BaseCheck):
     out = CaseResult()
     classes = set()
     V = self.V
-    VarzReceiver.VARZ_DATA.clear()
     services = ['svcA', 'svcB'][:rng.randint(1, 2)]
     tuples = []
     for _ in range(rng.randint(1, 6)):
       tuples.append((rng.choice([None, 'm1', 'm2']), rng.choice(services),
                      rng.choice([None, 'h1:1', 'h2:2']), rng.choice([None, None, 'cid'])))
     tuples = list(dict.fromkeys(tuples))
+    # metric objects of long-lived owners (sinks, pools) that were bound before the receiver's tables were
+    # reset and keep recording afterwards: what they record counts like anything else recorded since
+    early = {}
+    if idx % 4 == 2:
+      classes.add('objects-bound-before-reset')
+      for t_ in tuples:
+        early[t_] = V(Source(method=t_[0], service=t_[1], endpoint=t_[2], client_id=t_[3]))
+        early[t_].cnt(3)        # (recorded before the reset: gone with it)
+    VarzReceiver.VARZ_DATA.clear()
     model_sum = {}    # (metric, tuple) -> sum
     model_gauge = {}  # tuple -> last
     used = {}         # metric -> set(tuples)
@@ -105,7 +113,8 @@ class C18(BaseCheck):
           classes.add('zero-increment')
         if amt != int(amt):
           classes.add('fractional-increment')
-        V(src).cnt(amt) if amt != 1 else V(src).cnt()
+        obj_ = early[t] if t in early and rng.random() < 0.4 else V(src)
+        obj_.cnt(amt) if amt != 1 else obj_.cnt()
         model_sum[('cnt', t)] = model_sum.get(('cnt', t), 0) + amt
         used.setdefault('cnt', set()).add(t)
         kinds_used.add('counter')
@@ -119,13 +128,14 @@ class C18(BaseCheck):
         amt = rng.choice([1, 1, 1, 3, 0.5, 1.25])
         if amt != int(amt):
           classes.add('fractional-increment')
-        V(src).rate(amt) if amt != 1 else V(src).rate()
+        obj_ = early[t] if t in early and rng.random() < 0.4 else V(src)
+        obj_.rate(amt) if amt != 1 else obj_.rate()
         model_sum[('rate', t)] = model_sum.get(('rate', t), 0) + amt
         used.setdefault('rate', set()).add(t)
         kinds_used.add('rate')
       elif k == 'agg':
         amt = rng.choice([0.5, 0.25, 2.0, 8.0, 0.0])   # exactly representable: sums are exact
-        V(src).agg(amt)
+        (early[t] if t in early and rng.random() < 0.4 else V(src)).agg(amt)
         model_sum[('agg', t)] = model_sum.get(('agg', t), 0) + amt
         used.setdefault('agg', set()).add(t)
         kinds_used.add('timer')
